@@ -685,6 +685,16 @@ def check_property(pid, tier='quick', seed=0, witness_hook=None):
                         fallback_violations.append(fb)
                 else:
                     undecided.append('%s: %s' % (r.unit, msg))
+        # a function of this unit that the property does NOT own is unposable: the property's own clauses are still
+        # verified (against that function's assumed contract), so the verdict is not "undecided" -- but the bounded
+        # stand-ins registered for this property in this unit are run anyway: they can only ADD a concrete counterexample
+        # (before per-function degradation the whole unit went to the fallback; this keeps that detection power)
+        if r.degraded and not any(x['unit'] == r.unit for x in degraded_fns):
+            others = [d for d in r.degraded]
+            msg = 'unit %s has function(s) that could not be posed on this tree (%s)' % (r.unit, ', '.join('%s::%s' % (d['file'], d['name']) for d in others)[:300])
+            fb = fallback_witness(pid, r.unit, msg, witness_hook)
+            if fb and not any(x['obligation'] == fb['obligation'] for x in fallback_violations):
+                fallback_violations.append(fb)
         tf = [x for x in tf if not any(x['name'] == d['name'] and x['file'] == d['file'] for d in r.degraded)]
         for a in named_assumptions(gen_text):
             if a not in trusted:
